@@ -81,6 +81,13 @@ def generate(rng, tier):
         if rng.random() < 0.5:
             cut = rng.randrange(0, len(t))
             cases.append(_case(t[:cut], "pretty-printed-prefix"))
+    # maximally compact texts (one node per two bytes: the node stack is sized from the input length): flat arrays of single digits,
+    # nests around one digit, combs - every length class up to 300 bytes
+    for n in (range(1, 150) if not quick else list(range(1, 40)) + [63, 64, 65, 100, 149]):
+        cases.append(_case(b"[" + b",".join(b"%d" % (i % 10) for i in range(n)) + b"]", "compact"))
+        cases.append(_case(b"[" * n + b"7" + b"]" * n, "compact"))
+        cases.append(_case(b"[1," * n + b"1" + b"]" * n, "compact"))
+        cases.append(_case(b'{"":' * n + b"1" + b"}" * n, "compact"))
     # every byte value at a token position behind runs of blanks (the vector whitespace classifier takes over after two blanks;
     # 63..65 blanks cross a 64-byte bitmap block): accepted only for whitespace, digits 1-9 and '-'
     for b in range(256):
